@@ -7,6 +7,7 @@ import (
 	"strings"
 
 	biscuit "github.com/biscuit-auth/biscuit-go/v2"
+	"github.com/biscuit-auth/biscuit-go/v2/datalog"
 
 	"verif/internal/hx"
 	"verif/internal/sup"
@@ -100,28 +101,51 @@ func init() {
 				id   int
 				hist int
 			}
-			size := int64(len(c16IDs) * len(hists))
+			// how the token is created: the order of the builder options must not matter
+			creations := []string{"NewBuilder(WithRNG, WithRootKeyID)", "NewBuilder(WithRootKeyID, WithRNG)", "NewBuilder(WithRootKeyID, WithSymbols, WithRNG)", "NewBuilder(WithSymbols, WithRNG, WithRootKeyID)"}
+			size := int64(len(c16IDs) * len(hists) * len(creations))
 			return []*sup.Space{{Name: "histories-x-tables", Size: func(*sup.Ctx) int64 { return size }, Run: func(i int64, w *sup.W) {
+				creation := int(i) % len(creations)
+				i /= int64(len(creations))
 				id := c16IDs[int(i)%len(c16IDs)]
 				hist := hists[int(i)/len(c16IDs)]
+				base := datalog.SymbolTable{"base-symbol"}
 				rightPub, priv := hx.Keys(1)
 				wrongPub, _ := hx.Keys(2)
 				opts := []interface{}{}
 				_ = opts
+				syms := append(datalog.SymbolTable{}, base...)
+				rng := biscuit.WithRNG(hx.NewRNG(5))
 				var b biscuit.Builder
-				if id == nil {
-					b = biscuit.NewBuilder(priv, biscuit.WithRNG(hx.NewRNG(5)))
-				} else {
-					b = biscuit.NewBuilder(priv, biscuit.WithRNG(hx.NewRNG(5)), biscuit.WithRootKeyID(*id))
+				switch {
+				case id == nil && creation < 2:
+					b = biscuit.NewBuilder(priv, rng)
+				case id == nil && creation == 2:
+					b = biscuit.NewBuilder(priv, biscuit.WithSymbols(&syms), rng)
+				case id == nil:
+					b = biscuit.NewBuilder(priv, biscuit.WithSymbols(&syms), rng)
+				case creation == 0:
+					b = biscuit.NewBuilder(priv, rng, biscuit.WithRootKeyID(*id))
+				case creation == 1:
+					b = biscuit.NewBuilder(priv, biscuit.WithRootKeyID(*id), rng)
+				case creation == 2:
+					b = biscuit.NewBuilder(priv, biscuit.WithRootKeyID(*id), biscuit.WithSymbols(&syms), rng)
+				default:
+					b = biscuit.NewBuilder(priv, biscuit.WithSymbols(&syms), rng, biscuit.WithRootKeyID(*id))
 				}
 				hx.FillBuilder(b, poolP)
 				tok, err := b.Build()
 				human := func() string {
-					return fmt.Sprintf("id=%s history=Build;%s", idStr(id), strings.Join(strings.Split(hist, ""), ";"))
+					return fmt.Sprintf("id=%s history=%s.Build;%s", idStr(id), creations[creation], strings.Join(strings.Split(hist, ""), ";"))
 				}
 				if err != nil {
 					w.Class("build-error")
 					w.Violate("C16:build-failed", human(), err.Error(), "a token")
+					return
+				}
+				if got := tok.RootKeyID(); (got == nil) != (id == nil) || (got != nil && *got != *id) {
+					w.Class("id-lost")
+					w.Violate("C16:root-key-id-changed-by-build", human(), "RootKeyID()="+idStr(got)+" after Build", idStr(id))
 					return
 				}
 				sealed := false
@@ -165,7 +189,13 @@ func init() {
 							w.Violate("C16:serialize-failed", human(), err.Error(), "bytes")
 							return
 						}
-						nt, err := biscuit.Unmarshal(ser)
+						var nt *biscuit.Biscuit
+						if creation >= 2 {
+							t := append(datalog.SymbolTable{}, base...)
+							nt, err = (&biscuit.Unmarshaler{Symbols: &t}).Unmarshal(ser)
+						} else {
+							nt, err = biscuit.Unmarshal(ser)
+						}
 						if err != nil {
 							w.Violate("C16:unmarshal-failed", human(), err.Error(), "a token")
 							return
